@@ -82,11 +82,11 @@ func main() {
 
 func tierConfig(tier string) (Config, exploreOpts) {
 	cfg := Config{MaxSteps: 3_000_000, MaxDecisions: 600, SplitMax: 4, RunesMax: 3, MapPerms: true, SolverMs: 8000}
-	eo := exploreOpts{Workers: 16, MaxPaths: 60000, ConcordMax: 400, SampleMax: 6,
-		Solvers: []string{"cvc5-1", "z3-1", "z3new-1"}, SolverMs: []int{2500, 4000, 8000}}
+	eo := exploreOpts{Workers: 16, MaxPaths: 2000000, ConcordMax: 400, SampleMax: 6,
+		Solvers: []string{"z3new-s", "cvc5-1", "z3-1"}, SolverMs: []int{400, 2500, 5000}}
 	if tier == "thorough" {
-		eo.SolverMs = []int{5000, 10000, 20000}
-		eo.MaxPaths = 600000
+		eo.SolverMs = []int{1000, 8000, 20000}
+		eo.MaxPaths = 20000000
 		eo.ConcordMax = 5000
 	}
 	if v := os.Getenv("SYMGO_WORKERS"); v != "" {
@@ -302,6 +302,7 @@ func runCheck(prop, tier string, o opts) int {
 			fmt.Printf("[%s]   cuts: %v\n", prop, sortedCounts(x.cuts))
 		}
 	}
+	fmt.Printf("[%s] solver stages: %s; cache hits %d\n", prop, stageSummary(), cacheHits)
 	nb := <-nbCh
 	if nb.err != nil {
 		return inconclusive(nb.err.Error())
